@@ -27,6 +27,8 @@ type HCKnobs struct {
 	Interval time.Duration `json:"interval"`
 	Timeout  time.Duration `json:"timeout"`
 	Path     string        `json:"path,omitempty"`
+	// TargetTimeout is the services' default response-header timeout (0 = 30s).
+	TargetTimeout time.Duration `json:"target_timeout,omitempty"`
 }
 
 type ActorSpec struct {
@@ -70,6 +72,7 @@ type Op struct {
 	AbortAfter time.Duration `json:"abort_after,omitempty"`
 	Raw        string        `json:"raw,omitempty"` // server mode: raw request bytes
 	Tag        string        `json:"tag,omitempty"` // free label for oracles
+	Hold       *Hold         `json:"hold,omitempty"` // directed stall of this operation's goroutine
 }
 
 type SvcOpts struct {
